@@ -118,7 +118,7 @@ for n in (127, 128):
 add("c19_unknown_size_non_master", ["C19"], "wr.rs", "U", "write_advanced(leaf, unknown size): Err and state == snapshot", "all u64 payload values, spec Tree", timeout_s=900, mem_gb=8, stubs=WST, assumes=C19A)
 add("c19_raw_malformed_id", ["C19"], "wr.rs", "U", "write(raw tag with malformed id): TagIdError(id) and state == snapshot", "all ids outside Tree that are not well-formed", timeout_s=900, mem_gb=8, stubs=WST, assumes=C19A)
 add("c19_full_invalid_child", ["C19", "C09"], "wr.rs", "U", "public write(Full(A,[L3 (misplaced)])) under an open Root: UnexpectedTag(L3) and state == snapshot",
-    "spec Tree; child value symbolic (u64); 2 symbolic buffered bytes", timeout_s=1500, mem_gb=12, stubs=WST, assumes=C19A)
+    "spec Tree; child value symbolic (u64); 2 symbolic buffered bytes", tier="thorough", timeout_s=5400, mem_gb=20, stubs=WST, assumes=C19A)
 
 # ---------------------------------------------------------------- C18 derive corpus
 for d, what in (("d1", "all six data types, depth-2 paths, 1-3 byte ids (the repo's test declaration)"),
@@ -153,10 +153,10 @@ add("c14_recover_at_end", ["C14", "C05"], "recover.rs", "U", "try_recover with n
 for n, W, u in (("c09_binary_w0", 0, 0), ("c09_binary_w1", 1, 0), ("c09_binary_w4", 4, 0), ("c09_binary_w8", 8, 0), ("c09_utf8_w0", 0, 1), ("c09_utf8_w2", 2, 1)):
     add(n, ["C09", "C01", "C10"], "wr.rs", "U", "write_%s_tag::<%d>: buffer' == buffer | id | size field of width %s | payload; destination untouched while a known-size master is open" % ("utf8" if u else "binary", W, W or "default"),
         "payload length 0..=3, bytes symbolic%s; 2 symbolic buffered bytes" % (" (ASCII)" if u else ""), timeout_s=1200, mem_gb=8, stubs=WST, assumes=C19A)
-add("c19_utf8_width1_overflow", ["C19", "C09"], "wr.rs", "U", "write_utf8_tag::<1> with 126..129-byte payload: Err iff len >= 127; on Err state == snapshot",
-    "payload length 126..=129 (bytes concrete)", timeout_s=900, mem_gb=8, stubs=WST, assumes=C19A)
+add("c19_utf8_width1_len127", ["C19", "C09"], "wr.rs", "U", "write_utf8_tag::<1> with a 127-byte payload: Err and state == snapshot", "payload bytes concrete, 2 symbolic buffered bytes", timeout_s=1200, mem_gb=8, stubs=WST, assumes=C19A)
+add("c19_utf8_width1_len126", ["C19", "C09"], "wr.rs", "U", "write_utf8_tag::<1> with a 126-byte payload: Ok, id + 1-byte size field", "payload bytes concrete, 2 symbolic buffered bytes", timeout_s=1200, mem_gb=8, stubs=WST, assumes=C19A)
 add("c09_width_dispatch", ["C09", "C01"], "wr.rs", "U", "public write_advanced(set_size_byte_count(w)) on an empty binary element: size field is exactly w bytes encoding 0",
-    "w symbolic 1..=8; spec Flat; one known-size master open", timeout_s=1800, mem_gb=12, stubs=WST)
+    "w symbolic 1..=8; spec Tree, global element under one known-size master", timeout_s=1800, mem_gb=12, stubs=WST)
 add("c09_unknown_size_equivalence", ["C09"], "wr.rs", "U", "deprecated write_unknown_size == write_advanced(is_unknown_sized_element): same result, same writer state; id + 8-byte all-ones size; master open as unknown",
     "outer master known/unknown symbolic, 2 symbolic buffered bytes, spec Tree", timeout_s=1200, mem_gb=8, stubs=WST)
 for k in (1, 3):
